@@ -97,7 +97,7 @@ func replayAlias(t *testing.T, cfgC []string, addC []string, wantSig string) {
 	// pure: every member resolves to itself
 	for _, m := range ids {
 		if got := pc.VerifPeerAddr(m); got != m {
-			fail(addrSig(m, got, cfgC), "node %q (cfg.Peers=%s then AddPeer %s) resolves member %q to the address %q", ids[2], q(cfgC), q(addC), m, got)
+			fail(addrSig(m, got, ids[2], cfgC), "node %q (cfg.Peers=%s then AddPeer %s) resolves member %q to the address %q", ids[2], q(cfgC), q(addC), m, got)
 		}
 	}
 	// end to end: a subscriber every node assigns to X, entering at C and at X
@@ -116,7 +116,7 @@ func replayAlias(t *testing.T, cfgC []string, addC []string, wantSig string) {
 			t.Fatalf("INCONCLUSIVE: allocate via X: %v", err)
 		}
 		if viaC.NodeID != viaX.NodeID {
-			fail(addrSig(ids[0], viaC.NodeID, cfgC), "%q is owned by %q on every node; entering at %q it is served by %q, entering at %q by %q; pools holding it: %v",
+			fail(addrSig(ids[0], viaC.NodeID, ids[2], cfgC), "%q is owned by %q on every node; entering at %q it is served by %q, entering at %q by %q; pools holding it: %v",
 				sub, ids[0], ids[2], viaC.NodeID, ids[0], viaX.NodeID, c.holders(sub))
 		}
 		break
@@ -152,7 +152,7 @@ func TestReplayRelatedIdsResolve(t *testing.T) {
 		}
 		for _, m := range append(append([]string{}, cs[0]...), cs[1]...) {
 			if got := p.VerifPeerAddr(m); got != m {
-				vstat.Fail(t, addrSig(m, got, cs[0]), "node core-c:9000 (cfg.Peers=%s then AddPeer %s) resolves member %q to the address %q", q(cs[0]), q(cs[1]), m, got)
+				vstat.Fail(t, addrSig(m, got, "core-c:9000", cs[0]), "node core-c:9000 (cfg.Peers=%s then AddPeer %s) resolves member %q to the address %q", q(cs[0]), q(cs[1]), m, got)
 			}
 		}
 		vstat.Case(true, vstat.Hash("replay-related", q(cs[0]), q(cs[1])), nil, "replay")
